@@ -78,6 +78,9 @@ def run(idx: ProgramIndex, rep: Report, tier: str):
     load_hooks(idx, rep)
     init_flags(idx, rep)
     shadow_buffers(idx, rep)
+    lazy_registration(idx, rep)
+    copyable_caches(idx, rep)
+    picklable_closures(idx, rep)
 
 
 # ---- C18-7 ---------------------------------------------------------------------------------------------------------
@@ -519,6 +522,30 @@ def pickling(idx: ProgramIndex, rep: Report):
                         probs.append("constructor parameter `%s` is not passed to the copy" % p)
                     elif "self.%s" % p not in src(v):
                         probs.append("constructor parameter `%s` is not taken from self.%s" % (p, p))
+                # sub-objects (modules, tensors - by the constructor's annotations) must be copied through the memo: handing self.X over
+                # un-copied makes the copy share X with the original, copying without the memo breaks identities inside the copied model
+                # (model.likelihood is kernel.likelihood)
+                ann = {a.arg: (src(a.annotation) if a.annotation is not None else "") for a in init.node.args.args + init.node.args.kwonlyargs} if init else {}
+                for i, p_ in enumerate(params):
+                    v = kws.get(p_, ctor[0].args[i] if i < len(ctor[0].args) else None)
+                    if v is None:
+                        continue
+                    a_ = ann.get(p_, "")
+                    is_obj = any(k in a_ for k in ("Tensor", "Kernel", "Likelihood", "Module", "Mean", "Distribution", "Prior")) and "Tuple" not in a_
+                    if not is_obj:
+                        continue
+                    dc_call = v if isinstance(v, ast.Call) and (chain(v.func) or "").split(".")[-1] == "deepcopy" else None
+                    if dc_call is None:
+                        probs.append("`%s` (%s) is handed to the copy as it is: the copy shares it with the original (setting or training it on one changes the other)" % (p_, a_))
+                    elif len(dc_call.args) < 2 and not dc_call.keywords:
+                        probs.append("`%s` is deep-copied without the memo: an object that the surrounding model also references (e.g. the likelihood) is duplicated instead of staying one object in the copy" % p_)
+                # a module re-built through its constructor starts in training mode
+                gm_ = idx.cls("gpytorch.module", "Module")
+                if cls.is_subclass_of(gm_):
+                    keeps_mode = any((isinstance(c2.func, ast.Attribute) and c2.func.attr == "train" and any("training" in src(a2) for a2 in c2.args)) for c2 in calls_in(dc.node)) or \
+                        any(isinstance(a2, ast.Assign) and any(isinstance(t2, ast.Attribute) and t2.attr == "training" for t2 in a2.targets) for a2 in ast.walk(dc.node))
+                    if not keeps_mode:
+                        probs.append("the copy is re-built through the constructor and its training flag is not set from self.training: the copy of an eval-mode module is in training mode")
             # attribute caches carried or dropped consistently
             for c_, a, writers in c03.attribute_caches(idx):
                 if cls.is_subclass_of(c_):
@@ -594,3 +621,151 @@ def init_flags(idx: ProgramIndex, rep: Report):
                     rep.add("C18-6", "%s:%s.%s:%s" % (cls.module.name, cls.qualname, m.name, attr), "%s:%d" % (m.module.relpath, c.lineno), ok,
                             "flag `%s` is a registered buffer (saved and loaded with the model)" % attr if ok else "flag `%s` is flipped with fill_() at run time but is not a registered buffer: a loaded model re-runs its one-time initialisation" % attr, {})
     rep.floor("C18-6", "flags written with fill_()", n, 5)
+
+
+# ---- C18-8 ---------------------------------------------------------------------------------------------------------
+REGISTRATION_EXEMPT = {"__setstate__": "unpickling", "_load_from_state_dict": "load hook", "initialize": "explicit re-initialisation by the user"}
+
+
+def _registers_in_init(idx: ProgramIndex, cls: ClassInfo, name: str) -> bool:
+    """is buffer/parameter `name` registered on every construction (in __init__ itself or in a method __init__ calls unconditionally)?"""
+    init = cls.lookup("__init__")
+    if init is None:
+        return False
+    reach = {"__init__"} | _init_reachable(cls)
+    for k in cls.repo_mro():
+        for mname, m in k.methods.items():
+            if mname not in reach:
+                continue
+            for c in calls_in(m.node):
+                if isinstance(c.func, ast.Attribute) and c.func.attr in ("register_buffer", "register_parameter") and const_str(get_arg(c, 0, "name") or ast.Constant(value=None)) == name:
+                    if mname == "__init__":
+                        return not _enclosing_tests(m.node, c)
+                    # registered by a helper: the call of the helper in __init__ must be unconditional
+                    for c2 in calls_in(init.node):
+                        if isinstance(c2.func, ast.Attribute) and chain(c2.func.value) == "self" and c2.func.attr == mname and not _enclosing_tests(init.node, c2):
+                            return True
+    return False
+
+
+def lazy_registration(idx: ProgramIndex, rep: Report):
+    """The key set of state_dict() has to be a function of the architecture, not of the call history: a buffer or parameter that is
+    registered for the first time by forward (or by anything else that runs after construction) is missing from a freshly constructed
+    model of the same architecture, so a strict load_state_dict raises and a non-strict one silently drops prediction-relevant state."""
+    rep.rule("C18-8", "buffers / parameters are registered at construction: nothing is registered for the first time after __init__ (the state_dict key set does not depend on the call history)")
+    gm = idx.cls("gpytorch.module", "Module")
+    n = 0
+    for cls in idx.package_classes():
+        if not cls.is_subclass_of(gm) and not any(getattr(b, "name", "") == "Module" for b in cls.mro()):
+            continue
+        reach = {"__init__"} | _init_reachable(cls)
+        for mname, m in sorted(cls.methods.items()):
+            for c in calls_in(m.node):
+                if not (isinstance(c.func, ast.Attribute) and c.func.attr in ("register_buffer", "register_parameter") and chain(c.func.value) == "self"):
+                    continue
+                nm = get_arg(c, 0, "name")
+                name = const_str(nm) if nm is not None else None
+                if name is None:
+                    continue
+                n += 1
+                inst = "%s:%s.%s[register %s]" % (cls.module.name, cls.qualname, mname, name)
+                where = "%s:%d" % (m.module.relpath, c.lineno)
+                if mname in REGISTRATION_EXEMPT:
+                    rep.add("C18-8", inst, where, True, "registration in %s (%s)" % (mname, REGISTRATION_EXEMPT[mname]), {}, trivial=True)
+                    continue
+                if mname == "__init__":
+                    guards = _enclosing_tests(m.node, c)
+                    if not guards:
+                        rep.add("C18-8", inst, where, True, "registered unconditionally at construction", {}, trivial=True)
+                        continue
+                    # conditional registration in __init__: fine if the condition is configuration (constructor arguments) and no later
+                    # method registers the same name; a later first registration is judged at that site
+                    rep.add("C18-8", inst, where, True, "registered at construction under a condition on the constructor arguments (architecture)", {"guards": [src(g)[:60] for g in guards]}, trivial=True)
+                    continue
+                # outside __init__: who calls this method?
+                if _registers_in_init(idx, cls, name):
+                    rep.add("C18-8", inst, where, True, "re-registration of a name that every construction registers", {})
+                    continue
+                callers_after_init = [f2.name for f2 in cls.all_methods().values() if f2.name not in reach and f2.name != mname and any(isinstance(c2.func, ast.Attribute) and chain(c2.func.value) == "self" and c2.func.attr == mname for c2 in calls_in(f2.node))]
+                if mname in reach and not callers_after_init:
+                    # helper of __init__ only; conditional call in __init__ = architecture
+                    rep.add("C18-8", inst, where, True, "registered by a helper that only __init__ calls", {}, trivial=True)
+                    continue
+                rep.add("C18-8", inst, where, False,
+                        "`%s` is registered for the first time in %s%s, i.e. after construction when the constructor did not register it: state_dict() of a used model has a key that a freshly constructed model of the same architecture lacks (strict load raises 'Unexpected key', strict=False drops it)" % (
+                            name, mname, " (called from %s)" % ", ".join(sorted(set(callers_after_init))) if callers_after_init else ""), {})
+    rep.floor("C18-8", "buffer / parameter registrations", n, 40)
+
+
+# ---- C18-9 ---------------------------------------------------------------------------------------------------------
+def copyable_caches(idx: ProgramIndex, rep: Report):
+    """copy.deepcopy refuses non-leaf tensors.  A class that memoises tensors computed from its parameters (@cached / add_to_cache ->
+    self._memoize_cache, or attribute caches) holds such tensors between calls, so 'deep copy at any moment of a history' needs the
+    class (or an ancestor in the package) to drop or detach the cache when copied: __deepcopy__ / __getstate__."""
+    rep.rule("C18-9", "modules that memoise graph-carrying tensors between calls can be deep-copied at any moment: the memo is dropped on copy (__deepcopy__ / __getstate__)")
+    gm = idx.cls("gpytorch.module", "Module")
+    n = 0
+    for cls in sorted(idx.package_classes(), key=lambda c: (c.module.name, c.qualname)):
+        if not cls.is_subclass_of(gm):
+            continue
+        own_cached = sorted(m.name for m in cls.methods.values() if any("cached" in src(d) for d in getattr(m.node, "decorator_list", [])))
+        if not own_cached:
+            continue
+        # only the class that introduces memoisation in its hierarchy is judged (sub-classes inherit the verdict)
+        if any(any("cached" in src(d) for d in getattr(m.node, "decorator_list", [])) for b in cls.repo_mro()[1:] for m in b.methods.values()):
+            continue
+        n += 1
+        guard = None
+        for b in cls.repo_mro():
+            for hook in ("__deepcopy__", "__getstate__"):
+                if hook in b.methods and ("_memoize_cache" in src(b.methods[hook].node) or "clear_cache" in src(b.methods[hook].node)):
+                    guard = "%s.%s" % (b.name, hook)
+        # a cache that only ever holds detached tensors is harmless
+        detached = all(any(isinstance(c.func, ast.Attribute) and c.func.attr == "detach" for c in calls_in(cls.methods[mn].node)) for mn in own_cached)
+        ok = guard is not None or detached
+        rep.add("C18-9", "%s:%s[memo]" % (cls.module.name, cls.qualname), cls.where, ok,
+                ("the memo is dropped on copy by %s" % guard) if guard else ("every memoised value is detached" if detached else
+                "memoises %s in self._memoize_cache (cleared only by the next training call, train() or load_state_dict) and neither the class nor an ancestor drops the memo in __deepcopy__/__getstate__: copy.deepcopy(model) between two calls raises 'Only Tensors created explicitly by the user support the deepcopy protocol'" % ", ".join(own_cached)), {})
+    rep.floor("C18-9", "module classes introducing memoisation", n, 1)
+
+
+# ---- C18-10 --------------------------------------------------------------------------------------------------------
+def picklable_closures(idx: ProgramIndex, rep: Report):
+    """pickle cannot serialise a lambda or a function defined inside another function.  Module.register_prior stores the closures it is
+    given in self._priors, so every lambda / local function that reaches it (directly, or created by register_prior itself for the
+    string form) makes the whole model unpicklable (torch.save(model), pickle.dumps)."""
+    rep.rule("C18-10", "closures stored on modules (register_prior) are picklable: bound methods / module-level functions, no lambdas or local functions")
+    n = 0
+    for fi in idx.all_functions():
+        local_defs = {d.name for d in ast.walk(fi.node) if isinstance(d, (ast.FunctionDef, ast.AsyncFunctionDef)) and d is not fi.node}
+        for c in calls_in(fi.node):
+            if not (isinstance(c.func, ast.Attribute) and c.func.attr == "register_prior"):
+                continue
+            n += 1
+            args = list(c.args[2:]) + [k.value for k in c.keywords if k.arg in ("param_or_closure", "setting_closure")]
+            bad = []
+            for a in args:
+                if isinstance(a, ast.Lambda):
+                    bad.append("a lambda")
+                elif isinstance(a, ast.Name) and a.id in local_defs:
+                    bad.append("the local function `%s`" % a.id)
+            anon = "%s:%s[register_prior(%s)]" % (fi.module.name, fi.qualname, const_str(c.args[0]) if c.args and const_str(c.args[0]) else "_")
+            rep.add("C18-10", anon, "%s:%d" % (fi.module.relpath, c.lineno), not bad,
+                    "closures are bound methods / importable functions (or a parameter name)" if not bad else
+                    "register_prior receives %s: it is stored in self._priors and pickle cannot serialise it, so pickle.dumps(model) / torch.save(model) raise for every model containing this module with the prior set" % " and ".join(sorted(set(bad))), {})
+    # the string form: Module.register_prior builds closures itself
+    gm = idx.cls("gpytorch.module", "Module")
+    rp = idx.method(gm, "register_prior", own=True)
+    local_defs = [d for d in ast.walk(rp.node) if isinstance(d, (ast.FunctionDef, ast.Lambda)) and d is not rp.node]
+    stored = []
+    for d in local_defs:
+        nm = getattr(d, "name", None)
+        if nm and any(isinstance(t, ast.Tuple) and any(isinstance(e, ast.Name) and e.id == nm for e in t.elts) for t in ast.walk(rp.node)):
+            stored.append(nm)
+        elif nm and any(isinstance(a, ast.Assign) and isinstance(a.value, ast.Name) and a.value.id == nm for a in ast.walk(rp.node)):
+            stored.append(nm)
+    n += 1
+    rep.add("C18-10", "%s:Module.register_prior[string form]" % gm.module.name, rp.where, not stored,
+            "the string form stores no local function" if not stored else
+            "for a parameter given by name register_prior wraps it in the local function(s) %s and stores them in self._priors: every prior registered by name (register_prior(name, prior, 'param')) makes the model unpicklable" % ", ".join("`%s`" % x for x in sorted(set(stored))), {})
+    rep.floor("C18-10", "register_prior sites", n, 30)
